@@ -35,7 +35,7 @@ func genC05(repo string) (string, error) {
 	gopt := goast.SkelOpt{
 		Calls: set("Check", "GetClusterDCLocations", "getTS", "estimateMaxTS", "SyncMaxTS", "CompareTimestamp", "precheckLogical",
 			"getCurrentTSO", "resetUserTimestamp", "differentiateLogical", "generateTSO", "checkSyncedDCs", "ClusterDCLocationChecker", "Wait"),
-		Assigns: set("Logical", "Physical", "skipCheck", "estimatedMaxTSO", "maxTSO", "dcLocationMap"), Conds: true, Branches: true, Decls: true}
+		Assigns: set("Logical", "Physical", "skipCheck", "estimatedMaxTSO", "maxTSO", "dcLocationMap"), Conds: true, Branches: true, Decls: true, ArgCalls: set("getTS")}
 	for _, fn := range []string{"GenerateTSO", "estimateMaxTS", "SyncMaxTS", "precheckLogical"} {
 		if err := o.skeleton(ga, "GlobalTSOAllocator", fn, "skel_gta_"+fn, gopt); err != nil {
 			return "", err
